@@ -336,3 +336,60 @@ package common
 //@   ensures range: (err != nil) == (subnet >= SYNC_COMMITTEE_SUBNET_COUNT)
 //@   ensures size: err == nil ==> len(indices) == spec.SYNC_COMMITTEE_SIZE / SYNC_COMMITTEE_SUBNET_COUNT && len(pubs) == len(indices)
 //@   ensures members: err == nil ==> (forall j :: {indices[j]} {pubs[j]} 0 <= j && j < len(indices) ==> indices[j] == isc.Indices[subnet * (spec.SYNC_COMMITTEE_SIZE / SYNC_COMMITTEE_SUBNET_COUNT) + j] && pubs[j] == isc.CachedPubkeys[subnet * (spec.SYNC_COMMITTEE_SIZE / SYNC_COMMITTEE_SUBNET_COUNT) + j])
+
+// ---------------------------------------------------------------- validator views (assumed interface models; C12, C03)
+//@ sort ValI = Validator
+//@ sort RegI = ValidatorRegistry
+//@ ufun st_vals_err(StateI) bool
+//@ ufun st_vals(StateI) RegI
+//@ ufun reg_val_err(RegI, int) bool
+//@ ufun reg_val(RegI, int) ValI
+//@ ufun v_slashed_err(ValI) bool
+//@ ufun v_slashed(ValI) bool
+//@ ufun v_act_err(ValI) bool
+//@ ufun v_act(ValI) int
+//@ ufun v_wd_err(ValI) bool
+//@ ufun v_wd(ValI) int
+
+//@ func (s BeaconState) Validators() (r, err)
+//@   trusted
+//@   opt noalloc
+//@   ensures (err != nil) == st_vals_err(s)
+//@   ensures err == nil ==> r == st_vals(s) && r != nil
+
+//@ func (r ValidatorRegistry) Validator(index) (v, err)
+//@   trusted
+//@   opt noalloc
+//@   ensures (err != nil) == reg_val_err(r, index)
+//@   ensures err == nil ==> v == reg_val(r, index) && v != nil
+
+//@ func (v Validator) Slashed() (r, err)
+//@   trusted
+//@   opt noalloc
+//@   ensures (err != nil) == v_slashed_err(v)
+//@   ensures err == nil ==> r == v_slashed(v)
+
+//@ func (v Validator) ActivationEpoch() (r, err)
+//@   trusted
+//@   opt noalloc
+//@   ensures (err != nil) == v_act_err(v)
+//@   ensures err == nil ==> r == v_act(v)
+
+//@ func (v Validator) WithdrawableEpoch() (r, err)
+//@   trusted
+//@   opt noalloc
+//@   ensures (err != nil) == v_wd_err(v)
+//@   ensures err == nil ==> r == v_wd(v)
+
+// ValidatorSet.Filter keeps, in order, the elements the callback retains (the callback is assumed pure).
+//@ func (vs *ValidatorSet) Filter(retain) err
+//@   property C12
+//@   opt pure_func=retain
+//@   assigns *vs
+//@   ensures shrinks: vs != nil ==> len(*vs) <= old(len(*vs))
+//@   loop 1
+//@     invariant 0 <= j && j <= i && i <= len(vsr) && len(vsr) == len(*vs) && len(*vs) == old(len(*vs))
+
+// ZigZagJoin reports through callbacks only: assumed here (its effect at a call site is what the callbacks assign)
+//@ func (vs ValidatorSet) ZigZagJoin(target, onIn, onOut)
+//@   trusted
